@@ -6,6 +6,7 @@ import (
 	"fmt"
 	"sort"
 	"strings"
+	"time"
 
 	"github.com/creachadair/jrpc2"
 	"github.com/creachadair/jrpc2/channel"
@@ -113,17 +114,18 @@ func (c checkingAssigner) Names() []string { return c.inner.(jrpc2.Namer).Names(
 func c17Trees() []*refTree {
 	leaf := func(name string, ms ...string) *refTree { return &refTree{Name: name, Methods: ms} }
 	return []*refTree{
-		leaf("M", "a", "a.b", "a..b", ".a", "a.", "rpc", "rpc.", "rpc.a", "rpc.serverInfo", "RPC.a", "é", "b", "r.p.c", "rpc.a.b", "rpc..a", "rpc.a.", "rpc.serverInfo.a"),
+		leaf("M", "a", "a.b", "a..b", ".a", "a.", "rpc", "rpc.", "rpc.a", "rpc.serverInfo", "RPC.a", "é", "b", "r.p.c", "rpc.a.b", "rpc..a", "rpc.a.", "rpc.serverInfo.a", "xrpc.a", "a.rpc.b", "grpc.", ".rpc.a", "rpcs"),
 		{Name: "S1", Services: map[string]*refTree{
-			"a":   leaf("S1a", "b", "", "a.b", ".c", "a"),
-			"":    leaf("S1empty", "a", ""),
-			"rpc": leaf("S1rpc", "a", "serverInfo", "a.b", ".a", "a."),
-			"a.b": leaf("S1unreachable", "c"),
-			"c.c": leaf("S1dotted", "a"),
-			"a-":  leaf("S1a-", "b", "a"), // a service name that has another one as prefix, continued by a byte below '.'
-			"a b": leaf("S1a b", "b"),
-			"é":   leaf("S1é", "é"),
-			"R":   {Name: "S1R", Services: map[string]*refTree{"p": leaf("S1Rp", "c", "c.c")}},
+			"a":    leaf("S1a", "b", "", "a.b", ".c", "a", "rpc.x"),
+			"xrpc": leaf("S1xrpc", "a"),
+			"":     leaf("S1empty", "a", ""),
+			"rpc":  leaf("S1rpc", "a", "serverInfo", "a.b", ".a", "a."),
+			"a.b":  leaf("S1unreachable", "c"),
+			"c.c":  leaf("S1dotted", "a"),
+			"a-":   leaf("S1a-", "b", "a"), // a service name that has another one as prefix, continued by a byte below '.'
+			"a b":  leaf("S1a b", "b"),
+			"é":    leaf("S1é", "é"),
+			"R":    {Name: "S1R", Services: map[string]*refTree{"p": leaf("S1Rp", "c", "c.c")}},
 		}},
 		{Name: "S3", Services: map[string]*refTree{
 			"a": {Name: "S3a", Services: map[string]*refTree{
@@ -302,6 +304,8 @@ func c17Dispatch(tree *refTree, disable bool, names []string, label string) *Sce
 							}
 							if len(info.Metrics) == 0 || info.StartTime == "" {
 								r.Fail("C17.R4", n, "serverInfo lacks metrics or start time: "+got.result, "")
+							} else if st, perr := time.Parse(time.RFC3339Nano, info.StartTime); perr != nil || st.Year() < 2000 {
+								r.Fail("C17.R4", n, "serverInfo start time is not the time the server was started: "+info.StartTime, "")
 							}
 						}
 					case builtinName:
@@ -413,6 +417,28 @@ func c17Dynamic() *Scenario {
 				}
 				for _, p := range problems {
 					r.Fail("C17.R4", "changing assigner", p, "")
+				}
+			}
+			// a ServiceMap one of whose services cannot list its methods
+			var mixed []string
+			pm := guarded(func() {
+				sm := handler.ServiceMap{"s": handler.Map{"b": nil, "a": nil}, "t": anyAssigner{nil}, "u": handler.ServiceMap{"v": anyAssigner{nil}, "w": handler.Map{"x": nil}}}
+				mixed = sm.Names()
+			})
+			r.Calls(1)
+			r.Case("servicemap-non-namer", true)
+			Hit("C17.R3")
+			if pm != "" {
+				r.Fail("C17.R3", "ServiceMap with a service that is not a Namer", "Names panicked: "+pm, "")
+			} else {
+				var plain []string
+				for _, n := range mixed {
+					if !strings.Contains(n, "*") {
+						plain = append(plain, n)
+					}
+				}
+				if !sort.StringsAreSorted(mixed) || strings.Join(plain, ",") != "s.a,s.b,u.w.x" {
+					r.Fail("C17.R3", "ServiceMap with a service that is not a Namer", fmt.Sprintf("Names() = %q: want sorted, with s.a, s.b and u.w.x listed", mixed), "")
 				}
 			}
 			// an assigner that lists nothing: the documented placeholder
